@@ -39,12 +39,12 @@ MENUS = [
     ('arr', ['[]', '<>']),                             # also number format: repr / explicit exponent+sign
     ('case', ['upper', 'lower', 'declared', 'mixed']),
     ('inter', ['grouped', 'alternate', 'reversed']),
-    ('chan', ['path', 'text', 'binary']),
+    ('chan', ['path', 'text', 'binary', 'textnl']),      # textnl: text file object opened with newline='' (keeps CRLF)
     ('raw', [False, True]),
 ]
 QUICK_MENUS = {'eol': ['\n', '\r\n'], 'cmt': ['none', 'all'], 'trail': [False, True], 'blank': ['none', 'double'],
                'sep': ['one', 'runs'], 'cont': ['none', 'every'], 'sstyle': ['bare', 'brace2'], 'arr': ['[]', '<>'],
-               'case': ['upper', 'mixed'], 'inter': ['grouped', 'alternate'], 'chan': ['path', 'binary'],
+               'case': ['upper', 'mixed'], 'inter': ['grouped', 'alternate'], 'chan': ['textnl', 'binary'],
                'raw': [False, True]}
 
 # ------------------------------------------------------------------ documents
@@ -54,7 +54,7 @@ STRUCTS = {
     'B': {'name': 'ABC', 'cols': [['dval', 'double'], ['tag', 'char[]'], ['arr', 'int[2]']]},
     'C': {'name': 'flux', 'cols': [['lval', 'long'], ['sval', 'short'], ['farr', 'float[2]'], ['larr', 'long[2]']]},
     'D': {'name': 'MyStruct', 'cols': [['names', 'char[2][4]'], ['free', 'char[2][]'], ['color', 'COLORS']]},
-    'E': {'name': 'T', 'cols': [['flux', 'float'], ['label', 'char[6]']]},
+    'E': {'name': 'T', 'cols': [['flux', 'float'], ['label', 'char[6]'], ['one', 'long[1]']]},
 }
 ROWS = {   # two row sets per struct
     'A': [[[2147483647, 0.5, 'a b']],
@@ -64,10 +64,10 @@ ROWS = {   # two row sets per struct
     'C': [[[9223372036854775807, -32768, [0.5, float('inf')], [2 ** 53 + 1, -9223372036854775808]]],
           [[-9223372036854775808, 32767, [1e-45, -0.0], [9223372036854775807, 1237648720693755918]],
            [0, -1, [float('nan'), 0.1], [-(2 ** 53 + 1), 0]]]],
-    'D': [[[['ab', ''], ['x y', 'q'], 'GREEN_X']],
-          [[['', 'a#b'], ['', "it's"], 'B'], [['abcd', 'a;b'], ['a{b', 'zz zz'], 'RED']]],
-    'E': [[[0.25, 'a{b}c']],
-          [[3.4028234663852886e+38, 'trail '], [-1.5, 'a\tb']]],
+    'D': [[[['ab', ''], ['a long one', 'q'], 'GREEN_X']],
+          [[['', 'a#b'], ['', "it's"], 'B'], [['abcd', 'a;b'], ['a{b', 'zz zz'], 'RED'], [['b', 'a'], ['abcdefgh', 'z'], 'B']]],
+    'E': [[[0.25, 'a{b}c', [7]]],
+          [[3.4028234663852886e+38, 'trail ', [-9223372036854775808]], [-1.5, 'a\tb', [2 ** 53 + 1]]]],
 }
 COMBOS = [['A'], ['B'], ['C'], ['D'], ['E'], ['A', 'B'], ['B', 'A'], ['C', 'E'], ['E', 'C'], ['A', 'D'], ['D', 'C']]
 PAIRS = [[], [['mjd', '54579']], [['alpha', 'beta gamma  delta'], ['semi', 'a;b c'], ['Empty', '']],
@@ -351,7 +351,7 @@ def check_one(doc, lay, d):
         if lay['chan'] == 'path':
             par = yanny(path, raw=lay['raw'])
         else:
-            fh = open(path, 'r' if lay['chan'] == 'text' else 'rb')
+            fh = open(path, 'rb') if lay['chan'] == 'binary' else (open(path, 'r', newline='') if lay['chan'] == 'textnl' else open(path, 'r'))
             par = yanny(fh, raw=lay['raw'])
     except Exception as e:
         return [('parse:exception:' + type(e).__name__, repr(e)[:300])]
@@ -372,7 +372,7 @@ def tasks(tier):
     t = []
     plan = [(d, 'quick') for d in QUICK_DOCS] if tier == 'quick' else \
            [(d, 'thorough') for d in QUICK_DOCS] + [(d, 'quick') for d in DOCS if d not in QUICK_DOCS]
-    for chan in ('path', 'text', 'binary'):
+    for chan in ('path', 'text', 'binary', 'textnl'):
         t.append({'history': True, 'chan': chan})
     for d, mt in plan:
         m = dict(menus(mt))
